@@ -21,8 +21,8 @@ package proto
 //@   tags C03,C02,C04,C06
 //@   any k int
 //@   requires w != nil && w.Writer != nil && data != nil
-//@   modifies wn[w.Writer], wdata[w.Writer], iofaults
-//@   let u = w.Writer
+//@   modifies wn[wsink(w.Writer)], wdata[wsink(w.Writer)], iofaults
+//@   let u = wsink(w.Writer)
 //@   let L = typeis(data, "string") ? len(unboxstr(data)) : enclen(data)
 //@   ensures iofaults >= old(iofaults) && wn[u] >= old(wn[u])
 //@   ensures k < old(wn[u]) ==> wdata[u][k] == old(wdata[u][k]) @prefix-kept
@@ -38,128 +38,128 @@ package proto
 //@ func Writer.SendOpenDirResult results(err)
 //@   tags C03,C06,C04
 //@   requires w != nil && w.Writer != nil
-//@   modifies wn[w.Writer], wdata[w.Writer], iofaults
-//@   ensures outKept(w.Writer) && iofaults >= old(iofaults) && (iofaults == old(iofaults) ==> err == nil)
-//@   ensures[C03] err == nil ==> wroteI32(w.Writer, success ? 0 : -1) @layout
-//@   ensures[C03] wn[w.Writer] <= old(wn[w.Writer]) + 4 @length
+//@   modifies wn[wsink(w.Writer)], wdata[wsink(w.Writer)], iofaults
+//@   ensures outKept(wsink(w.Writer)) && iofaults >= old(iofaults) && (iofaults == old(iofaults) ==> err == nil)
+//@   ensures[C03] err == nil ==> wroteI32(wsink(w.Writer), success ? 0 : -1) @layout
+//@   ensures[C03] wn[wsink(w.Writer)] <= old(wn[wsink(w.Writer)]) + 4 @length
 
 //@ func Writer.SendCreateFileResult results(err)
 //@   tags C03,C05,C04
 //@   requires w != nil && w.Writer != nil
-//@   modifies wn[w.Writer], wdata[w.Writer], iofaults
-//@   ensures outKept(w.Writer) && iofaults >= old(iofaults) && (iofaults == old(iofaults) ==> err == nil)
-//@   ensures[C03] err == nil ==> wroteI32(w.Writer, 0) @layout
-//@   ensures[C03] wn[w.Writer] <= old(wn[w.Writer]) + 4 @length
+//@   modifies wn[wsink(w.Writer)], wdata[wsink(w.Writer)], iofaults
+//@   ensures outKept(wsink(w.Writer)) && iofaults >= old(iofaults) && (iofaults == old(iofaults) ==> err == nil)
+//@   ensures[C03] err == nil ==> wroteI32(wsink(w.Writer), 0) @layout
+//@   ensures[C03] wn[wsink(w.Writer)] <= old(wn[wsink(w.Writer)]) + 4 @length
 //@ func Writer.SendCreateFileError results(err)
 //@   tags C03,C05,C04
 //@   requires w != nil && w.Writer != nil
-//@   modifies wn[w.Writer], wdata[w.Writer], iofaults
-//@   ensures outKept(w.Writer) && iofaults >= old(iofaults) && (iofaults == old(iofaults) ==> err == nil)
-//@   ensures[C03] err == nil ==> wroteI32(w.Writer, -1) @layout
-//@   ensures[C03] wn[w.Writer] <= old(wn[w.Writer]) + 4 @length
+//@   modifies wn[wsink(w.Writer)], wdata[wsink(w.Writer)], iofaults
+//@   ensures outKept(wsink(w.Writer)) && iofaults >= old(iofaults) && (iofaults == old(iofaults) ==> err == nil)
+//@   ensures[C03] err == nil ==> wroteI32(wsink(w.Writer), -1) @layout
+//@   ensures[C03] wn[wsink(w.Writer)] <= old(wn[wsink(w.Writer)]) + 4 @length
 //@ func Writer.SendWriteFileResult results(err)
 //@   tags C03,C05,C04
 //@   requires w != nil && w.Writer != nil
-//@   modifies wn[w.Writer], wdata[w.Writer], iofaults
-//@   ensures outKept(w.Writer) && iofaults >= old(iofaults) && (iofaults == old(iofaults) ==> err == nil)
-//@   ensures[C03] err == nil ==> wroteI32(w.Writer, written) @layout
-//@   ensures[C03] wn[w.Writer] <= old(wn[w.Writer]) + 4 @length
+//@   modifies wn[wsink(w.Writer)], wdata[wsink(w.Writer)], iofaults
+//@   ensures outKept(wsink(w.Writer)) && iofaults >= old(iofaults) && (iofaults == old(iofaults) ==> err == nil)
+//@   ensures[C03] err == nil ==> wroteI32(wsink(w.Writer), written) @layout
+//@   ensures[C03] wn[wsink(w.Writer)] <= old(wn[wsink(w.Writer)]) + 4 @length
 //@ func Writer.SendWriteFileError results(err)
 //@   tags C03,C05,C04
 //@   requires w != nil && w.Writer != nil
-//@   modifies wn[w.Writer], wdata[w.Writer], iofaults
-//@   ensures outKept(w.Writer) && iofaults >= old(iofaults) && (iofaults == old(iofaults) ==> err == nil)
-//@   ensures[C03] err == nil ==> wroteI32(w.Writer, -1) @layout
-//@   ensures[C03] wn[w.Writer] <= old(wn[w.Writer]) + 4 @length
+//@   modifies wn[wsink(w.Writer)], wdata[wsink(w.Writer)], iofaults
+//@   ensures outKept(wsink(w.Writer)) && iofaults >= old(iofaults) && (iofaults == old(iofaults) ==> err == nil)
+//@   ensures[C03] err == nil ==> wroteI32(wsink(w.Writer), -1) @layout
+//@   ensures[C03] wn[wsink(w.Writer)] <= old(wn[wsink(w.Writer)]) + 4 @length
 //@ func Writer.SendDeleteFileResult results(err)
 //@   tags C03,C05,C04
 //@   requires w != nil && w.Writer != nil
-//@   modifies wn[w.Writer], wdata[w.Writer], iofaults
-//@   ensures outKept(w.Writer) && iofaults >= old(iofaults) && (iofaults == old(iofaults) ==> err == nil)
-//@   ensures[C03] err == nil ==> wroteI32(w.Writer, 0) @layout
-//@   ensures[C03] wn[w.Writer] <= old(wn[w.Writer]) + 4 @length
+//@   modifies wn[wsink(w.Writer)], wdata[wsink(w.Writer)], iofaults
+//@   ensures outKept(wsink(w.Writer)) && iofaults >= old(iofaults) && (iofaults == old(iofaults) ==> err == nil)
+//@   ensures[C03] err == nil ==> wroteI32(wsink(w.Writer), 0) @layout
+//@   ensures[C03] wn[wsink(w.Writer)] <= old(wn[wsink(w.Writer)]) + 4 @length
 //@ func Writer.SendDeleteFileError results(err)
 //@   tags C03,C05,C04
 //@   requires w != nil && w.Writer != nil
-//@   modifies wn[w.Writer], wdata[w.Writer], iofaults
-//@   ensures outKept(w.Writer) && iofaults >= old(iofaults) && (iofaults == old(iofaults) ==> err == nil)
-//@   ensures[C03] err == nil ==> wroteI32(w.Writer, -1) @layout
-//@   ensures[C03] wn[w.Writer] <= old(wn[w.Writer]) + 4 @length
+//@   modifies wn[wsink(w.Writer)], wdata[wsink(w.Writer)], iofaults
+//@   ensures outKept(wsink(w.Writer)) && iofaults >= old(iofaults) && (iofaults == old(iofaults) ==> err == nil)
+//@   ensures[C03] err == nil ==> wroteI32(wsink(w.Writer), -1) @layout
+//@   ensures[C03] wn[wsink(w.Writer)] <= old(wn[wsink(w.Writer)]) + 4 @length
 //@ func Writer.SendMkdirResult results(err)
 //@   tags C03,C05,C04
 //@   requires w != nil && w.Writer != nil
-//@   modifies wn[w.Writer], wdata[w.Writer], iofaults
-//@   ensures outKept(w.Writer) && iofaults >= old(iofaults) && (iofaults == old(iofaults) ==> err == nil)
-//@   ensures[C03] err == nil ==> wroteI32(w.Writer, 0) @layout
-//@   ensures[C03] wn[w.Writer] <= old(wn[w.Writer]) + 4 @length
+//@   modifies wn[wsink(w.Writer)], wdata[wsink(w.Writer)], iofaults
+//@   ensures outKept(wsink(w.Writer)) && iofaults >= old(iofaults) && (iofaults == old(iofaults) ==> err == nil)
+//@   ensures[C03] err == nil ==> wroteI32(wsink(w.Writer), 0) @layout
+//@   ensures[C03] wn[wsink(w.Writer)] <= old(wn[wsink(w.Writer)]) + 4 @length
 //@ func Writer.SendMkdirError results(err)
 //@   tags C03,C05,C04
 //@   requires w != nil && w.Writer != nil
-//@   modifies wn[w.Writer], wdata[w.Writer], iofaults
-//@   ensures outKept(w.Writer) && iofaults >= old(iofaults) && (iofaults == old(iofaults) ==> err == nil)
-//@   ensures[C03] err == nil ==> wroteI32(w.Writer, -1) @layout
-//@   ensures[C03] wn[w.Writer] <= old(wn[w.Writer]) + 4 @length
+//@   modifies wn[wsink(w.Writer)], wdata[wsink(w.Writer)], iofaults
+//@   ensures outKept(wsink(w.Writer)) && iofaults >= old(iofaults) && (iofaults == old(iofaults) ==> err == nil)
+//@   ensures[C03] err == nil ==> wroteI32(wsink(w.Writer), -1) @layout
+//@   ensures[C03] wn[wsink(w.Writer)] <= old(wn[wsink(w.Writer)]) + 4 @length
 //@ func Writer.SendRmdirResult results(err)
 //@   tags C03,C05,C04
 //@   requires w != nil && w.Writer != nil
-//@   modifies wn[w.Writer], wdata[w.Writer], iofaults
-//@   ensures outKept(w.Writer) && iofaults >= old(iofaults) && (iofaults == old(iofaults) ==> err == nil)
-//@   ensures[C03] err == nil ==> wroteI32(w.Writer, 0) @layout
-//@   ensures[C03] wn[w.Writer] <= old(wn[w.Writer]) + 4 @length
+//@   modifies wn[wsink(w.Writer)], wdata[wsink(w.Writer)], iofaults
+//@   ensures outKept(wsink(w.Writer)) && iofaults >= old(iofaults) && (iofaults == old(iofaults) ==> err == nil)
+//@   ensures[C03] err == nil ==> wroteI32(wsink(w.Writer), 0) @layout
+//@   ensures[C03] wn[wsink(w.Writer)] <= old(wn[wsink(w.Writer)]) + 4 @length
 //@ func Writer.SendRmdirError results(err)
 //@   tags C03,C05,C04
 //@   requires w != nil && w.Writer != nil
-//@   modifies wn[w.Writer], wdata[w.Writer], iofaults
-//@   ensures outKept(w.Writer) && iofaults >= old(iofaults) && (iofaults == old(iofaults) ==> err == nil)
-//@   ensures[C03] err == nil ==> wroteI32(w.Writer, -1) @layout
-//@   ensures[C03] wn[w.Writer] <= old(wn[w.Writer]) + 4 @length
+//@   modifies wn[wsink(w.Writer)], wdata[wsink(w.Writer)], iofaults
+//@   ensures outKept(wsink(w.Writer)) && iofaults >= old(iofaults) && (iofaults == old(iofaults) ==> err == nil)
+//@   ensures[C03] err == nil ==> wroteI32(wsink(w.Writer), -1) @layout
+//@   ensures[C03] wn[wsink(w.Writer)] <= old(wn[wsink(w.Writer)]) + 4 @length
 //@ func Writer.SendReadFileResultLen results(err)
 //@   tags C03,C02,C04
 //@   requires w != nil && w.Writer != nil
-//@   modifies wn[w.Writer], wdata[w.Writer], iofaults
-//@   ensures outKept(w.Writer) && iofaults >= old(iofaults) && (iofaults == old(iofaults) ==> err == nil)
-//@   ensures[C03,C02] err == nil ==> wroteI32(w.Writer, dataLen) @layout
-//@   ensures[C03] wn[w.Writer] <= old(wn[w.Writer]) + 4 @length
+//@   modifies wn[wsink(w.Writer)], wdata[wsink(w.Writer)], iofaults
+//@   ensures outKept(wsink(w.Writer)) && iofaults >= old(iofaults) && (iofaults == old(iofaults) ==> err == nil)
+//@   ensures[C03,C02] err == nil ==> wroteI32(wsink(w.Writer), dataLen) @layout
+//@   ensures[C03] wn[wsink(w.Writer)] <= old(wn[wsink(w.Writer)]) + 4 @length
 
 // ---- 8-byte and structured results ---------------------------------------------------------------
 
 //@ func Writer.SendGetDirectorySizeResult results(err)
 //@   tags C03,C06,C04
 //@   requires w != nil && w.Writer != nil
-//@   modifies wn[w.Writer], wdata[w.Writer], iofaults
-//@   ensures outKept(w.Writer) && iofaults >= old(iofaults) && (iofaults == old(iofaults) ==> err == nil)
-//@   ensures[C03,C06] err == nil ==> wroteI64(w.Writer, size) @layout
-//@   ensures[C03] wn[w.Writer] <= old(wn[w.Writer]) + 8 @length
+//@   modifies wn[wsink(w.Writer)], wdata[wsink(w.Writer)], iofaults
+//@   ensures outKept(wsink(w.Writer)) && iofaults >= old(iofaults) && (iofaults == old(iofaults) ==> err == nil)
+//@   ensures[C03,C06] err == nil ==> wroteI64(wsink(w.Writer), size) @layout
+//@   ensures[C03] wn[wsink(w.Writer)] <= old(wn[wsink(w.Writer)]) + 8 @length
 //@ func Writer.SendGetDirectorySizeError results(err)
 //@   tags C03,C06,C04
 //@   requires w != nil && w.Writer != nil
-//@   modifies wn[w.Writer], wdata[w.Writer], iofaults
-//@   ensures outKept(w.Writer) && iofaults >= old(iofaults) && (iofaults == old(iofaults) ==> err == nil)
-//@   ensures[C03,C06] err == nil ==> wroteI64(w.Writer, -1) @layout
-//@   ensures[C03] wn[w.Writer] <= old(wn[w.Writer]) + 8 @length
+//@   modifies wn[wsink(w.Writer)], wdata[wsink(w.Writer)], iofaults
+//@   ensures outKept(wsink(w.Writer)) && iofaults >= old(iofaults) && (iofaults == old(iofaults) ==> err == nil)
+//@   ensures[C03,C06] err == nil ==> wroteI64(wsink(w.Writer), -1) @layout
+//@   ensures[C03] wn[wsink(w.Writer)] <= old(wn[wsink(w.Writer)]) + 8 @length
 
 //@ func Writer.SendOpenFileResult results(err)
 //@   tags C03,C02,C04
 //@   requires w != nil && w.Writer != nil && info != nil
 //@   wrapok uint64(info.ModTime().UTC().Unix())
-//@   modifies wn[w.Writer], wdata[w.Writer], iofaults
-//@   ensures outKept(w.Writer) && iofaults >= old(iofaults) && (iofaults == old(iofaults) ==> err == nil)
-//@   ensures[C03,C02] err == nil ==> wn[w.Writer] == old(wn[w.Writer]) + 16 && sbe64(wdata[w.Writer], old(wn[w.Writer])) == fisize[info] && be64(wdata[w.Writer], old(wn[w.Writer]) + 8) == u64(fimtime[info]) @layout
-//@   ensures[C03] wn[w.Writer] <= old(wn[w.Writer]) + 16 @length
+//@   modifies wn[wsink(w.Writer)], wdata[wsink(w.Writer)], iofaults
+//@   ensures outKept(wsink(w.Writer)) && iofaults >= old(iofaults) && (iofaults == old(iofaults) ==> err == nil)
+//@   ensures[C03,C02] err == nil ==> wn[wsink(w.Writer)] == old(wn[wsink(w.Writer)]) + 16 && sbe64(wdata[wsink(w.Writer)], old(wn[wsink(w.Writer)])) == fisize[info] && be64(wdata[wsink(w.Writer)], old(wn[wsink(w.Writer)]) + 8) == u64(fimtime[info]) @layout
+//@   ensures[C03] wn[wsink(w.Writer)] <= old(wn[wsink(w.Writer)]) + 16 @length
 //@ func Writer.SendOpenFileForCLOSEFILE results(err)
 //@   tags C03,C04
 //@   requires w != nil && w.Writer != nil
-//@   modifies wn[w.Writer], wdata[w.Writer], iofaults
-//@   ensures outKept(w.Writer) && iofaults >= old(iofaults) && (iofaults == old(iofaults) ==> err == nil)
-//@   ensures[C03] err == nil ==> wn[w.Writer] == old(wn[w.Writer]) + 16 && sbe64(wdata[w.Writer], old(wn[w.Writer])) == 0 && be64(wdata[w.Writer], old(wn[w.Writer]) + 8) == 0 @layout
-//@   ensures[C03] wn[w.Writer] <= old(wn[w.Writer]) + 16 @length
+//@   modifies wn[wsink(w.Writer)], wdata[wsink(w.Writer)], iofaults
+//@   ensures outKept(wsink(w.Writer)) && iofaults >= old(iofaults) && (iofaults == old(iofaults) ==> err == nil)
+//@   ensures[C03] err == nil ==> wn[wsink(w.Writer)] == old(wn[wsink(w.Writer)]) + 16 && sbe64(wdata[wsink(w.Writer)], old(wn[wsink(w.Writer)])) == 0 && be64(wdata[wsink(w.Writer)], old(wn[wsink(w.Writer)]) + 8) == 0 @layout
+//@   ensures[C03] wn[wsink(w.Writer)] <= old(wn[wsink(w.Writer)]) + 16 @length
 //@ func Writer.SendOpenFileError results(err)
 //@   tags C03,C04
 //@   requires w != nil && w.Writer != nil
-//@   modifies wn[w.Writer], wdata[w.Writer], iofaults
-//@   ensures outKept(w.Writer) && iofaults >= old(iofaults) && (iofaults == old(iofaults) ==> err == nil)
-//@   ensures[C03] err == nil ==> wn[w.Writer] == old(wn[w.Writer]) + 16 && sbe64(wdata[w.Writer], old(wn[w.Writer])) == -1 && be64(wdata[w.Writer], old(wn[w.Writer]) + 8) == 0 @layout
-//@   ensures[C03] wn[w.Writer] <= old(wn[w.Writer]) + 16 @length
+//@   modifies wn[wsink(w.Writer)], wdata[wsink(w.Writer)], iofaults
+//@   ensures outKept(wsink(w.Writer)) && iofaults >= old(iofaults) && (iofaults == old(iofaults) ==> err == nil)
+//@   ensures[C03] err == nil ==> wn[wsink(w.Writer)] == old(wn[wsink(w.Writer)]) + 16 && sbe64(wdata[wsink(w.Writer)], old(wn[wsink(w.Writer)])) == -1 && be64(wdata[wsink(w.Writer)], old(wn[wsink(w.Writer)]) + 8) == 0 @layout
+//@   ensures[C03] wn[wsink(w.Writer)] <= old(wn[wsink(w.Writer)]) + 16 @length
 
 //@ func AccessTimeFileInfo.AccessTime results(t)
 //@   requires recv != nil
@@ -184,20 +184,20 @@ package proto
 //@ func Writer.SendStatFileResult results(err)
 //@   tags C03,C06,C04
 //@   requires w != nil && w.Writer != nil && entry != nil
-//@   modifies wn[w.Writer], wdata[w.Writer], iofaults
-//@   let u = w.Writer
-//@   let o = wn[w.Writer]
-//@   ensures outKept(w.Writer) && iofaults >= old(iofaults) && (iofaults == old(iofaults) ==> err == nil)
+//@   modifies wn[wsink(w.Writer)], wdata[wsink(w.Writer)], iofaults
+//@   let u = wsink(w.Writer)
+//@   let o = wn[wsink(w.Writer)]
+//@   ensures outKept(wsink(w.Writer)) && iofaults >= old(iofaults) && (iofaults == old(iofaults) ==> err == nil)
 //@   ensures[C03,C06] err == nil ==> wn[u] == o + 33 && sbe64(wdata[u], o) == (fisdir[entry] ? 0 : fisize[entry]) && be64(wdata[u], o + 8) == u64(fimtime[entry]) && wdata[u][o + 32] == (fisdir[entry] ? 1 : 0) @layout
 //@   ensures[C06] err == nil ==> be64(wdata[u], o + 16) == (implements(entry, "proto.AccessChangeTimeFileInfo") ? u64(fictime[entry]) : u64(fimtime[entry])) && be64(wdata[u], o + 24) == (implements(entry, "proto.AccessTimeFileInfo") ? u64(fiatime[entry]) : u64(fimtime[entry])) @times-order
 //@   ensures[C03] wn[u] <= o + 33 @length
 //@ func Writer.SendStatFileError results(err)
 //@   tags C03,C06,C04
 //@   requires w != nil && w.Writer != nil
-//@   modifies wn[w.Writer], wdata[w.Writer], iofaults
-//@   ensures outKept(w.Writer) && iofaults >= old(iofaults) && (iofaults == old(iofaults) ==> err == nil)
-//@   ensures[C03,C06] err == nil ==> wn[w.Writer] == old(wn[w.Writer]) + 33 && sbe64(wdata[w.Writer], old(wn[w.Writer])) == -1 @layout
-//@   ensures[C03] wn[w.Writer] <= old(wn[w.Writer]) + 33 @length
+//@   modifies wn[wsink(w.Writer)], wdata[wsink(w.Writer)], iofaults
+//@   ensures outKept(wsink(w.Writer)) && iofaults >= old(iofaults) && (iofaults == old(iofaults) ==> err == nil)
+//@   ensures[C03,C06] err == nil ==> wn[wsink(w.Writer)] == old(wn[wsink(w.Writer)]) + 33 && sbe64(wdata[wsink(w.Writer)], old(wn[wsink(w.Writer)])) == -1 @layout
+//@   ensures[C03] wn[wsink(w.Writer)] <= old(wn[wsink(w.Writer)]) + 33 @length
 
 // ---- directory entries ----------------------------------------------------------------------------
 
@@ -205,10 +205,10 @@ package proto
 //@   tags C03,C06,C04
 //@   any k int
 //@   requires w != nil && w.Writer != nil
-//@   modifies wn[w.Writer], wdata[w.Writer], iofaults
-//@   let u = w.Writer
-//@   let o = wn[w.Writer]
-//@   ensures outKept(w.Writer) && iofaults >= old(iofaults) && (iofaults == old(iofaults) ==> err == nil)
+//@   modifies wn[wsink(w.Writer)], wdata[wsink(w.Writer)], iofaults
+//@   let u = wsink(w.Writer)
+//@   let o = wn[wsink(w.Writer)]
+//@   ensures outKept(wsink(w.Writer)) && iofaults >= old(iofaults) && (iofaults == old(iofaults) ==> err == nil)
 //@   ensures[C03,C06] err == nil && entry == nil ==> wn[u] == o + 11 && sbe64(wdata[u], o) == -1 && be16(wdata[u], o + 8) == 0 && wdata[u][o + 10] == 0 @end-marker
 //@   ensures[C03,C06] err == nil && entry != nil ==> wn[u] == o + 11 + len(finame[entry]) && sbe64(wdata[u], o) == (fisdir[entry] ? 0 : fisize[entry]) && be16(wdata[u], o + 8) == len(finame[entry]) && wdata[u][o + 10] == (fisdir[entry] ? 1 : 0) @entry-header
 //@   ensures[C03,C06] err == nil && entry != nil && 0 <= k && k < len(finame[entry]) ==> wdata[u][o + 11 + k] == finame[entry][k] @entry-name
@@ -219,10 +219,10 @@ package proto
 //@   tags C03,C06,C04
 //@   any k int
 //@   requires w != nil && w.Writer != nil
-//@   modifies wn[w.Writer], wdata[w.Writer], iofaults
-//@   let u = w.Writer
-//@   let o = wn[w.Writer]
-//@   ensures outKept(w.Writer) && iofaults >= old(iofaults) && (iofaults == old(iofaults) ==> err == nil)
+//@   modifies wn[wsink(w.Writer)], wdata[wsink(w.Writer)], iofaults
+//@   let u = wsink(w.Writer)
+//@   let o = wn[wsink(w.Writer)]
+//@   ensures outKept(wsink(w.Writer)) && iofaults >= old(iofaults) && (iofaults == old(iofaults) ==> err == nil)
 //@   ensures[C03,C06] err == nil && entry == nil ==> wn[u] == o + 35 && sbe64(wdata[u], o) == -1 && be16(wdata[u], o + 32) == 0 && wdata[u][o + 34] == 0 @end-marker
 //@   ensures[C03,C06] err == nil && entry != nil ==> wn[u] == o + 35 + len(finame[entry]) && sbe64(wdata[u], o) == (fisdir[entry] ? 0 : fisize[entry]) && be64(wdata[u], o + 8) == u64(fimtime[entry]) && be16(wdata[u], o + 32) == len(finame[entry]) && wdata[u][o + 34] == (fisdir[entry] ? 1 : 0) @entry-header
 //@   ensures[C06] err == nil && entry != nil ==> be64(wdata[u], o + 16) == (implements(entry, "proto.AccessChangeTimeFileInfo") ? u64(fictime[entry]) : u64(fimtime[entry])) && be64(wdata[u], o + 24) == (implements(entry, "proto.AccessTimeFileInfo") ? u64(fiatime[entry]) : u64(fimtime[entry])) @times-order
@@ -237,10 +237,10 @@ package proto
 //@   requires w != nil && w.Writer != nil
 //@   requires forall y {at(entries, y)} :: base(entries) <= y && y < end(entries) ==> at(entries, y) != nil
 //@   wrapok uint64(entry.ModTime().UTC().Unix())
-//@   modifies wn[w.Writer], wdata[w.Writer], iofaults
-//@   let u = w.Writer
-//@   let o = wn[w.Writer]
-//@   ensures outKept(w.Writer) && iofaults >= old(iofaults) && (iofaults == old(iofaults) ==> err == nil)
+//@   modifies wn[wsink(w.Writer)], wdata[wsink(w.Writer)], iofaults
+//@   let u = wsink(w.Writer)
+//@   let o = wn[wsink(w.Writer)]
+//@   ensures outKept(wsink(w.Writer)) && iofaults >= old(iofaults) && (iofaults == old(iofaults) ==> err == nil)
 //@   ensures[C03,C06] err == nil ==> wn[u] == o + 8 + 529 * len(entries) && sbe64(wdata[u], o) == len(entries) @count
 //@   ensures[C03,C06] err == nil && 0 <= e && e < len(entries) ==> sbe64(wdata[u], o + 8 + 529 * e) == (fisdir[entries[e]] ? 0 : fisize[entries[e]]) && be64(wdata[u], o + 8 + 529 * e + 8) == u64(fimtime[entries[e]]) && wdata[u][o + 8 + 529 * e + 16] == (fisdir[entries[e]] ? 1 : 0) @entry-fields
 //@   ensures[C06] err == nil && 0 <= e && e < len(entries) && 0 <= q && q < 512 ==> wdata[u][o + 8 + 529 * e + 17 + q] == (q < len(finame[entries[e]]) ? finame[entries[e]][q] : 0) @entry-name
@@ -261,13 +261,16 @@ package proto
 //@   tags C03,C04,C16
 //@   any i int
 //@   requires wfReader(r)
-//@   modifies r.cmd.OpCode, elems(r.cmd.Data), fpos[r.Reader], iofaults
+//@   requires[C16] timeoutConfigured(r.Reader) ==> armed[r.Reader] @deadline-armed-before-waiting
+//@   modifies r.cmd.OpCode, elems(r.cmd.Data), fpos[r.Reader], iofaults, armed[r.Reader]
+//@   update armed = mapset(armed, r.Reader, false)
 //@   let c = r.Reader
 //@   let o = fpos[r.Reader]
-//@   ensures iofaults >= old(iofaults)
+//@   ensures iofaults >= old(iofaults) && !armed[c]
 //@   ensures[C03] err == nil ==> fpos[c] == o + 16 && op == be16(fcontent[c], o) && r.cmd.OpCode == op @sixteen-bytes
 //@   ensures[C03] err == nil && 0 <= i && i < 14 ==> r.cmd.Data[i] == fcontent[c][o + 2 + i] @data
 //@   ensures[C03] fpos[c] >= o && fpos[c] <= o + 16 @at-most-sixteen
+//@   ensures err == nil ==> fpos[c] <= fsize[c]
 
 //@ func Reader.readCommandTail
 //@   inline
